@@ -197,6 +197,11 @@ func OSFilePtrT() *Ty {
 	return &Ty{FK: "ptr", Src: "*os.File", Conc: "*os.File", Gen: "lwPick[*os.File](nil, os.Stdin, os.Stdout, os.Stderr)", Cmp: true, JSONOK: true, TagRule: "omit", IsPtr: true, Imports: []string{`"os"`}}
 }
 
+// BlankStructT is the type of a blank padding field `_ struct{}` (never read or generated).
+func BlankStructT() *Ty {
+	return &Ty{FK: "blank", Src: "struct{}", Conc: "struct{}", Gen: "lwZero[struct{}]()", Cmp: true, Faithful: true, JSONOK: true, TagRule: "plain"}
+}
+
 // ---- composites -----------------------------------------------------------------------
 
 // Nullable: some values of the type have the JSON encoding null.
